@@ -222,7 +222,7 @@ def run(p: Program, rep: Report, tier: str) -> None:
         else:
             rep.ok("R20.4", f"{side}: the capture callback never raises")
     # ---------------------------------------------------------------- R20.3 ensure_next
-    en = p.module("baize.wsgi.middleware").functions.get("ensure_next")
+    en = p.function("baize.wsgi.middleware", "ensure_next")
     if en is None:
         raise AnalysisError("ensure_next vanished")
     rep.analysed(en.fq)
